@@ -68,6 +68,9 @@ def check_relabelling(inp, out, what):
             if a != b:
                 res.append(("sort-columns", f"{what}: column {c} of new node {k} is {b}, the corresponding old node has {a}"))
                 return res
+        if "seg" in out and out["seg"][k] != 2**60 + 7 * (out["key"][k] - 100) + 1:
+            res.append(("sort-columns", f"{what}: the 64-bit integer column of new node {k} is {out['seg'][k]}, its node had {2**60 + 7 * (out['key'][k] - 100) + 1}"))
+            return res
         oldp = inp["pids"][o]
         newp = out["pid"][k]
         if newp == -1:
@@ -128,6 +131,8 @@ class SortSuite(Suite):
         for j, e in enumerate(case["extra"]):
             cols[f"e{j}"] = np.array(e, dtype=np.float32)
         df = pd.DataFrame(cols)
+        # a 64-bit integer column (segment / database ids): values that no float can hold
+        df["seg"] = np.array([2**60 + 7 * (k - 100) + 1 for k in case["key"]], dtype=np.int64)
         before = df.copy()
         d2 = sort_nodes(df)
         res["df_input_unchanged"] = bool(df.equals(before))
@@ -137,6 +142,10 @@ class SortSuite(Suite):
                  "types": [int(v) for v in get("type")], "r": [float(v) for v in get("r")]}
             for j in range(len(case["extra"])):
                 o[f"extra{j}"] = [float(v) for v in get(f"e{j}")] if ex else [case["extra"][j][case["key"].index(k)] for k in o["key"]]
+            try:
+                o["seg"] = [int(v) for v in get("seg")]
+            except Exception:  # noqa: BLE001 - only the data-frame forms carry the column
+                pass
             return o
 
         res["df"] = pack(lambda c: d2[c].tolist())
